@@ -210,6 +210,7 @@ def section_lift(chk):
 
 def main():
     chk = Check(PID)
+    chk.default_replay = _replay_roundtrip
     thorough = chk.tier == 'thorough'
     chk.bound(N='Lie round trip N = %d; glue and slots exact (no bound); section lift on a degree-3 symbolic Hamiltonian, one bracket expansion' % (5 if thorough else 4))
     chk.assume('Brent by contract (returns a root of the residual inside a sign-changing bracket)', 'formal frequencies (rational-function identities) and generic-side cleaning as in C08')
